@@ -453,6 +453,9 @@ func (sp *subProcess) startWith(ctx context.Context, element schema.FlowNodeInte
 	}
 	switch eventNode := flowNode.(type) {
 	case *startEvent:
+		// a start event flows once per instantiation; each activation of the
+		// sub-process is a new one
+		eventNode.activated.Store(false)
 		eventNode.Trigger(ctx)
 	case *throwEvent:
 		eventNode.Trigger(ctx)
@@ -491,8 +494,10 @@ func (sp *subProcess) ceaseFlowMonitor(tracer tracing.ITracer) func(ctx context.
 	// Subscribing to traces early as otherwise events produced
 	// after the goroutine below is started are not going to be
 	// sent to it.
-	traces := tracer.Subscribe()
+	// One activation at a time; the lock is taken before subscribing, as a
+	// subscription that waits for the lock would not be drained and stall the tracer.
 	sp.complete.Lock()
+	traces := tracer.Subscribe()
 	return func(ctx context.Context, sender tracing.ISenderHandle) {
 		defer sender.Done()
 		defer sp.complete.Unlock()
@@ -564,9 +569,16 @@ func (sp *subProcess) run(ctx context.Context, out tracing.ITracer) {
 					sp.active.Add(1)
 					defer sp.active.Add(-1)
 
+					// Every activation (a token entering the sub-process, again when it
+					// sits in a loop) has its own completion monitor: with the single
+					// monitor of the first activation a re-entered sub-process never
+					// reported completion.
+					sender := sp.subTracer.RegisterSender()
+					monitor := sp.ceaseFlowMonitor(sp.subTracer)
 					// subscribe before the inner flows start: a sub-process that
 					// finishes quickly would otherwise emit its cease-flow trace unseen
 					traces := sp.subTracer.Subscribe()
+					go monitor(ctx, sender)
 					defer sp.subTracer.Unsubscribe(traces)
 
 					if err := sp.startAll(ctx); err != nil {
@@ -620,13 +632,6 @@ func (sp *subProcess) NextAction(ctx context.Context, flow Flow) chan IAction {
 	if sp.active.CompareAndSwap(0, 1) {
 		// flow nodes
 		// StartAll cease flow monitor
-		// The monitor watches the inner flows and reports their completion on
-		// the inner tracer, where the activation started by run waits for it;
-		// reported on the parent's tracer the cease-flow trace never reached it
-		// (the parent's token stayed in the sub-process for ever) and looked
-		// like the completion of the enclosing process to its observers.
-		sender := sp.subTracer.RegisterSender()
-		go sp.ceaseFlowMonitor(sp.subTracer)(ctx, sender)
 		go sp.run(ctx, sp.wr.tracer)
 	}
 
